@@ -42,7 +42,11 @@ def bookkeeping(ctx, rid):
     # ratio * 100
     shape = _ratio_times_100(res)
     if shape is None:
-        ctx.violated(rid, fn, "the reported result is %s, not (matched bytes / examined bytes) * 100" % norm(res), stores[0])
+        if isinstance(res, (ast.BinOp, ast.Constant, ast.Name, ast.Attribute)):
+            ctx.violated(rid, fn, "the reported result is %s, not (matched bytes / examined bytes) * 100" % norm(res), stores[0])
+        else:
+            # computed by a helper / another object: the accounting lives elsewhere and is not followed
+            ctx.undecided(rid, fn, "the reported result is `%s`; the accounting behind it is not in this function and is not followed" % norm(res), stores[0])
         return
     num, den = shape
     ctx.holds(rid, fn, "result = %s / %s * 100" % (num, den), stores[0])
@@ -704,15 +708,16 @@ def digest_pairing(ctx, rid):
             names = {d for n in hs for d in C.ext_name(ctx, n, fn)}
             ctx.decide(rid, fn, names == {"hashlib.sha1"}, "computed side is sha1", "computed side uses %s with 20-byte recorded hashes" % sorted(names), "computed hash of " + fn.qualname)
     # v2 computed side: the hasher handed to process_current is FileHasher (sha256 layer hashes) or the zero Padder (sha256)
-    nf = ctx.prog.func("torrentfile.recheck:HashChecker.next_file")
-    kinds = set()
-    for n in own_nodes(nf.node):
-        if isinstance(n, ast.Assign) and any(isinstance(t, ast.Attribute) and t.attr == "hasher" for t in n.targets) and isinstance(n.value, ast.Call):
-            for k in ctx.res.kinds(n.value.func, nf):
-                if k[0] == "class":
-                    kinds.add(k[1].name)
-    ctx.decide(rid, nf, kinds <= {"FileHasher", "Padder"} and "FileHasher" in kinds, "v2 computed side comes from FileHasher / the zero Padder (sha256)",
-               "v2 computed side comes from %s" % sorted(kinds), "v2 hasher kinds")
+    hc = ctx.prog.cls("torrentfile.recheck:HashChecker")
+    nf = hc.methods.get("next_file") or next(iter(hc.methods.values()))
+    ak = ctx.res.class_attr_kinds(hc, "hasher", instance=True)
+    kinds = {k[1].name for k in ak if k[0] == "inst"}
+    other = {k for k in ak if k[0] not in ("inst", "none") }
+    if not kinds:
+        ctx.undecided(rid, nf, "what the per-file hasher of the v2 checker is bound to could not be resolved", "v2 hasher kinds")
+    else:
+        ctx.decide(rid, nf, kinds <= {"FileHasher", "Padder"} and "FileHasher" in kinds, "v2 computed side comes from FileHasher / the zero Padder (sha256)",
+                   "v2 computed side comes from %s" % sorted(kinds), "v2 hasher kinds")
     pd = ctx.prog.classes.get("torrentfile.recheck:HashChecker.Padder")
     if pd is not None:
         for m in pd.methods.values():
